@@ -852,6 +852,18 @@ def m_set_intersection(e,run,a,f):
 def m_set_is_subset(e,run,a,f):
     x=deref(a[0]); y=deref(a[1])
     return Bool(all(map_find(run,y,k) is not None for k,_ in x.e))
+def m_set_symmetric_difference(e,run,a,f):
+    x=deref(a[0]); y=deref(a[1])
+    out=[Ref(x.e[i],0) for i in map_order(run,x) if map_find(run,y,x.e[i][0]) is None]+[Ref(y.e[i],0) for i in map_order(run,y) if map_find(run,x,y.e[i][0]) is None]
+    return Iter(out)
+def m_set_union(e,run,a,f):
+    x=deref(a[0]); y=deref(a[1])
+    out=[Ref(x.e[i],0) for i in map_order(run,x)]+[Ref(y.e[i],0) for i in map_order(run,y) if map_find(run,x,y.e[i][0]) is None]
+    return Iter(out)
+def m_set_is_disjoint(e,run,a,f):
+    x=deref(a[0]); y=deref(a[1])
+    return Bool(all(map_find(run,y,k) is None for k,_ in x.e))
+def m_set_is_superset(e,run,a,f): return m_set_is_subset(e,run,[a[1],a[0]],f)
 def m_map_entry_or_insert(e,run,a,f): raise Unsupported('entry api')
 
 # ----------------------------------------------------------------------------- formatting
@@ -1194,6 +1206,9 @@ def register_all(E):
     M(r'^(HashMap|BTreeMap)::into_values$',m_map_into_values)
     M(r'^(HashMap|BTreeMap)::into_keys$',m_map_into_keys)
     M(r'^(HashSet|BTreeSet)::difference$',m_set_difference)
+    M(r'^(HashSet|BTreeSet)::symmetric_difference$',m_set_symmetric_difference); M(r'^(HashSet|BTreeSet)::union$',m_set_union)
+    M(r'^(HashSet|BTreeSet)::is_disjoint$',m_set_is_disjoint); M(r'^(HashSet|BTreeSet)::is_superset$',m_set_is_superset)
+    M(r'^(std::collections::)?HashMap::with_capacity$',lambda e,run,a,f: m_map_new(False)(e,run,[],f)); M(r'^(std::collections::)?HashSet::with_capacity$',lambda e,run,a,f: m_map_new(False,True)(e,run,[],f))
     M(r'^(HashSet|BTreeSet)::intersection$',m_set_intersection)
     M(r'^(HashSet|BTreeSet)::is_subset$',m_set_is_subset)
     M(r'^<(HashMap|BTreeMap)<.*> as (std::ops::)?Index<.*>>::index$',m_map_index)
@@ -2372,8 +2387,76 @@ def m_delta_num_nanoseconds(e,run,a,f):
 def m_delta_num_seconds(e,run,a,f):
     ns,_=_delta_parts(a[0])
     return Int(64,True,z3.simplify(z3.Extract(63,0,ns)))
+def m_delta_div(k):
+    # num_minutes / num_hours / num_days / num_weeks: num_seconds() / k, truncated toward zero
+    def m(e,run,a,f):
+        ns,_=_delta_parts(a[0]); q=z3.Extract(63,0,ns)
+        return Int(64,True,z3.simplify(z3.If(q<0,-z3.UDiv(-q,z3.BitVecVal(k,64)),z3.UDiv(q,z3.BitVecVal(k,64)))))
+    return m
+def m_delta_num_millis(e,run,a,f):
+    ns,sub=_delta_parts(a[0])
+    sm=z3.If(sub<0,-z3.UDiv(-sub,z3.BitVecVal(1000000,40)),z3.UDiv(sub,z3.BitVecVal(1000000,40)))
+    return Int(64,True,z3.simplify(z3.Extract(63,0,ns)*1000+z3.SignExt(24,sm)))
+def m_delta_subsec_nanos(e,run,a,f):
+    _,sub=_delta_parts(a[0]); return Int(32,True,z3.simplify(z3.Extract(31,0,sub)))
+def m_delta_const(mult):
+    def m(e,run,a,f):
+        x=deref(a[0]) if a else Int(64,True,0)
+        v=_sx(x.signed_val() if x.conc() else x.v,64,72)*z3.BitVecVal(mult,72) if a else z3.BitVecVal(0,72)
+        d=Agg('TimeDelta',[Int(72,True,z3.simplify(v)),Int(40,True,0)])
+        return some(d) if '::try_' in f else d
+    return m
+def _delta_key(d):
+    d=deref(d); S=d.f[0].v if not isinstance(d.f[0].v,int) else z3.BitVecVal(d.f[0].v,72); N=d.f[1].v if not isinstance(d.f[1].v,int) else z3.BitVecVal(d.f[1].v,40)
+    return S,N
+def m_delta_cmp(op):
+    def m(e,run,a,f):
+        S1,N1=_delta_key(deref(a[0])); S2,N2=_delta_key(deref(a[1]))
+        lt=z3.Or(S1<S2,z3.And(S1==S2,N1<N2)); eq=z3.And(S1==S2,N1==N2)
+        return Bool(z3.simplify({'lt':lt,'le':z3.Or(lt,eq),'gt':z3.Not(z3.Or(lt,eq)),'ge':z3.Not(lt),'eq':eq,'ne':z3.Not(eq)}[op]))
+    return m
+def m_delta_is_zero(e,run,a,f):
+    S,N=_delta_key(a[0]); return Bool(z3.simplify(z3.And(S==0,N==0)))
+def m_dt_add_delta(sign):
+    def m(e,run,a,f):
+        x=deref(a[0]); S,N=_delta_key(a[1])
+        xs=_sx(x.f[0].signed_val() if x.f[0].conc() else x.f[0].v,64,72); xn=z3.BitVecVal(x.f[1].v,40) if x.f[1].conc() else z3.ZeroExt(8,x.f[1].v)
+        if sign<0: S2=-S-z3.If(N>0,z3.BitVecVal(1,72),z3.BitVecVal(0,72)); N2=z3.If(N>0,1000000000-N,N); S,N=S2,N2
+        s=xs+S; n=xn+N; carry=n>=1000000000
+        s=z3.If(carry,s+1,s); n=z3.If(carry,n-1000000000,n)
+        fits=z3.And(s>=z3.BitVecVal(-8334601228800,72),s<=z3.BitVecVal(8210266876799,72))       # chrono's DateTime range (years -262143..262142)
+        okv=run.branch_bool(Bool(z3.simplify(fits)),'datetime.add.in_range')
+        r=Agg(x.ty,[Int(64,True,z3.simplify(z3.Extract(63,0,s))),Int(32,False,z3.simplify(z3.Extract(31,0,n)))]+list(x.f[2:]))
+        if 'checked_' in f: return some(r) if okv else none()
+        if not okv: raise Panic('`DateTime + TimeDelta` overflowed')
+        return r
+    return m
+def m_vec_write_fmt(e,run,a,f):
+    v=deref(a[0]); bl,t=render_args(e,run,a[1])
+    if t: raise Unsupported('an opaque formatted value is written into a byte buffer')
+    v.items.extend(Int(8,False,x) for x in bl)
+    return ok(UNIT)
+def m_vec_write_all(e,run,a,f):
+    v=deref(a[0]); v.items.extend(Int(8,False,x) for x in byte_list(a[1])); return ok(UNIT)
+def m_vec_write(e,run,a,f):
+    v=deref(a[0]); bl=byte_list(a[1]); v.items.extend(Int(8,False,x) for x in bl); return ok(Int(64,False,len(bl)))
+def m_map_get_key_value(e,run,a,f):
+    m=deref(a[0]); i=map_find(run,m,a[1])
+    return none() if i is None else some(tuple2(Ref(m.e[i],0),Ref(m.e[i],1)))
 def register_misc19(E):
     M=E.model
+    M(r'^<(std::vec::)?Vec<u8> as (std::io::)?Write>::write_fmt$',m_vec_write_fmt); M(r'^<(std::vec::)?Vec<u8> as (std::io::)?Write>::write_all$',m_vec_write_all)
+    M(r'^<(std::vec::)?Vec<u8> as (std::io::)?Write>::write$',m_vec_write); M(r'^<(std::vec::)?Vec<u8> as (std::io::)?Write>::flush$',lambda e,run,a,f: ok(UNIT))
+    M(r'^(HashMap|BTreeMap)::get_key_value$',m_map_get_key_value)
+    D=r'^(chrono::)?(TimeDelta|Duration)::'
+    M(D+r'num_minutes$',m_delta_div(60)); M(D+r'num_hours$',m_delta_div(3600)); M(D+r'num_days$',m_delta_div(86400)); M(D+r'num_weeks$',m_delta_div(604800))
+    M(D+r'num_milliseconds$',m_delta_num_millis); M(D+r'subsec_nanos$',m_delta_subsec_nanos); M(D+r'is_zero$',m_delta_is_zero)
+    M(D+r'zero$',m_delta_const(0)); M(D+r'(try_)?seconds$',m_delta_const(1)); M(D+r'(try_)?minutes$',m_delta_const(60)); M(D+r'(try_)?hours$',m_delta_const(3600))
+    M(D+r'(try_)?days$',m_delta_const(86400)); M(D+r'(try_)?weeks$',m_delta_const(604800))
+    for op in ('lt','le','gt','ge'): M(r'^<(chrono::)?(TimeDelta|Duration) as (std::cmp::)?PartialOrd>::'+op+'$',m_delta_cmp(op))
+    for op in ('eq','ne'): M(r'^<(chrono::)?(TimeDelta|Duration) as (std::cmp::)?PartialEq>::'+op+'$',m_delta_cmp(op))
+    M(r'^DateTime::checked_add_signed$|^<DateTime<.*> as (std::ops::)?Add<(chrono::)?(TimeDelta|Duration)>>::add$',m_dt_add_delta(1))
+    M(r'^DateTime::checked_sub_signed$|^<DateTime<.*> as (std::ops::)?Sub<(chrono::)?(TimeDelta|Duration)>>::sub$',m_dt_add_delta(-1))
     M(r'^DateTime::signed_duration_since$|^<DateTime<.*> as Sub<.*DateTime<.*>>>::sub$',m_signed_duration_since)
     M(r'^(TimeDelta|Duration)::num_nanoseconds$',m_delta_num_nanoseconds); M(r'^(TimeDelta|Duration)::num_seconds$',m_delta_num_seconds)
 _old_register_all28=register_all
